@@ -2,7 +2,8 @@
    corpus.  One case = the complete bytes of one corpus file, transported as pieces (hex strings and runs of zero bytes).
    [walk6_obs] runs the STRICT walk (Spec.Walk.walk wstrict) and flattens the answer to a list of numbers:
      accepted:  [ 1; superblock version; #deviation tags (the tie requires 0); #objects; object* ]
-     rejected:  [ 0; reason code ]                        (Spec.Walk.walk_code; tools/props/c06walk.py REASONS)
+     rejected:  [ 0; reason code ]                        (Spec.Walk.walk_code; tools/props/c06walk.py REASONS; 900: accepted, but the
+                                                          summary is too long to transport)
      object = addr; kind; datatype class; datatype size; datatype bits; dataspace type; layout; #dims; dim*; |path|; path bytes;
               #attrs; (|name|; name bytes)*; #links; (link type; |name|; name bytes)*
    The strict walk is the reference: by Props/C06Walk.v its acceptance implies that every tolerance accepts with the identical
@@ -19,9 +20,14 @@ Definition enc6_obj (o : obj_sum) : list N :=
   enc6_bytes (os_path o) ++ lenN (os_attrs o) :: concat (map enc6_bytes (os_attrs o)) ++
   lenN (os_links o) :: concat (map (fun l : N * bytes => fst l :: enc6_bytes (snd l)) (os_links o)).
 
+(* a summary of more than [obs_limit] numbers (link names of 64 kB: tlonglinks.h5) is not transported - printing it overflows the
+   stack of coqc; the file counts as rejected with reason 900 *)
+Definition obs_limit : N := 50000.
 Definition walk6_obs (fuel : nat) (f : bytes) : list N :=
   match walk wstrict fuel f with
-  | Ok r => 1 :: wr_version r :: lenN (wr_tags r) :: lenN (wr_tree r) :: concat (map enc6_obj (wr_tree r))
+  | Ok r =>
+      let l := concat (map enc6_obj (wr_tree r)) in
+      if obs_limit <? lenN l then [0; 900] else 1 :: wr_version r :: lenN (wr_tags r) :: lenN (wr_tree r) :: l
   | _ => [0; walk_code wstrict fuel f]
   end.
 
